@@ -10,3 +10,4 @@ import PhyloModel.Props.C10
 #print axioms C10.recursive_traversals_exact
 #print axioms C10.levelorder_exact
 #print axioms C10.fuel_suffices
+#print axioms C10.inorder_exact
